@@ -262,9 +262,13 @@ package keeper
 
 // ---- owner actions
 
+// `rejected` clauses (all 18 administrative handlers): a rejected administrative transaction has written nothing by
+// the time it returns, whatever the reason for the rejection - only a failure to emit the final event is left to the
+// SDK's rollback (C10 "fails and changes nothing", C13 "rejected without effect", C15 "failed transactions write nothing").
 //@ func (msgServer) UpdateOwner(goCtx, msg) (resp, err)
 //@ requires inited()
 //@ ensures[C10.auth]   msg.From != old(st.owner.val) ==> err != nil && unchanged(st) && events == [] && calls == []
+//@ ensures[C10.rejected C13.rejected C15.rejected] err != nil && !emitErr(0) ==> unchanged(st)
 //@ ensures[C10.only]   err == nil ==> msg.From == old(st.owner.val)
 //@ ensures[C11.valid]  err == nil ==> validBech32(msg.NewOwner)
 //@ ensures[C11.effect] err == nil ==> st.pendingOwner.set && st.pendingOwner.val == msg.NewOwner
@@ -276,6 +280,7 @@ package keeper
 //@ func (msgServer) AcceptOwner(goCtx, msg) (resp, err)
 //@ requires inited()
 //@ ensures[C10.auth C11.accept] !(old(st.pendingOwner.set) && msg.From == old(st.pendingOwner.val)) ==> err != nil && unchanged(st) && events == [] && calls == []
+//@ ensures[C10.rejected C13.rejected C15.rejected] err != nil && !emitErr(0) ==> unchanged(st)
 //@ ensures[C10.only]   err == nil ==> old(st.pendingOwner.set) && msg.From == old(st.pendingOwner.val)
 //@ ensures[C11.effect] err == nil ==> st.owner.set && st.owner.val == msg.From && !st.pendingOwner.set
 //@ ensures[C10.total C12.admin] old(st.pendingOwner.set) && msg.From == old(st.pendingOwner.val) && !emitErr(0) ==> err == nil
@@ -286,6 +291,7 @@ package keeper
 //@ func (msgServer) UpdateAttesterManager(goCtx, msg) (resp, err)
 //@ requires inited()
 //@ ensures[C10.auth]   msg.From != old(st.owner.val) ==> err != nil && unchanged(st) && events == [] && calls == []
+//@ ensures[C10.rejected C13.rejected C15.rejected] err != nil && !emitErr(0) ==> unchanged(st)
 //@ ensures[C10.only]   err == nil ==> msg.From == old(st.owner.val)
 //@ ensures[C11.valid]  err == nil ==> validBech32(msg.NewAttesterManager)
 //@ ensures[C11.effect] err == nil ==> st.attesterManager.set && st.attesterManager.val == msg.NewAttesterManager
@@ -297,6 +303,7 @@ package keeper
 //@ func (msgServer) UpdatePauser(goCtx, msg) (resp, err)
 //@ requires inited()
 //@ ensures[C10.auth]   msg.From != old(st.owner.val) ==> err != nil && unchanged(st) && events == [] && calls == []
+//@ ensures[C10.rejected C13.rejected C15.rejected] err != nil && !emitErr(0) ==> unchanged(st)
 //@ ensures[C10.only]   err == nil ==> msg.From == old(st.owner.val)
 //@ ensures[C11.valid]  err == nil ==> validBech32(msg.NewPauser)
 //@ ensures[C11.effect] err == nil ==> st.pauser.set && st.pauser.val == msg.NewPauser
@@ -308,6 +315,7 @@ package keeper
 //@ func (msgServer) UpdateTokenController(goCtx, msg) (resp, err)
 //@ requires inited()
 //@ ensures[C10.auth]   msg.From != old(st.owner.val) ==> err != nil && unchanged(st) && events == [] && calls == []
+//@ ensures[C10.rejected C13.rejected C15.rejected] err != nil && !emitErr(0) ==> unchanged(st)
 //@ ensures[C10.only]   err == nil ==> msg.From == old(st.owner.val)
 //@ ensures[C11.valid]  err == nil ==> validBech32(msg.NewTokenController)
 //@ ensures[C11.effect] err == nil ==> st.tokenController.set && st.tokenController.val == msg.NewTokenController
@@ -319,6 +327,7 @@ package keeper
 //@ func (msgServer) UpdateMaxMessageBodySize(goCtx, msg) (resp, err)
 //@ requires inited()
 //@ ensures[C10.auth]   msg.From != old(st.owner.val) ==> err != nil && unchanged(st) && events == [] && calls == []
+//@ ensures[C10.rejected C13.rejected C15.rejected] err != nil && !emitErr(0) ==> unchanged(st)
 //@ ensures[C10.only]   err == nil ==> msg.From == old(st.owner.val)
 //@ ensures[C19.scalar] err == nil ==> st.maxBody.set && st.maxBody.val == msg.MessageSize
 //@ ensures[C10.total C12.admin] msg.From == old(st.owner.val) && !emitErr(0) ==> err == nil
@@ -329,6 +338,7 @@ package keeper
 //@ func (msgServer) AddRemoteTokenMessenger(goCtx, msg) (resp, err)
 //@ requires inited()
 //@ ensures[C10.auth]   msg.From != old(st.owner.val) ==> err != nil && unchanged(st) && events == [] && calls == []
+//@ ensures[C10.rejected C13.rejected C15.rejected] err != nil && !emitErr(0) ==> unchanged(st)
 //@ ensures[C10.only]   err == nil ==> msg.From == old(st.owner.val)
 //@ ensures[C19.add]    err == nil ==> !old(st.messengers.has[msg.DomainId]) && len(msg.Address) == 32 && st.messengers.has[msg.DomainId] && st.messengers.addr[msg.DomainId] == msg.Address && st.messengers.dom[msg.DomainId] == msg.DomainId
 //@ ensures[C19.dup]    old(st.messengers.has[msg.DomainId]) ==> err != nil
@@ -340,6 +350,7 @@ package keeper
 //@ func (msgServer) RemoveRemoteTokenMessenger(goCtx, msg) (resp, err)
 //@ requires inited()
 //@ ensures[C10.auth]   msg.From != old(st.owner.val) ==> err != nil && unchanged(st) && events == [] && calls == []
+//@ ensures[C10.rejected C13.rejected C15.rejected] err != nil && !emitErr(0) ==> unchanged(st)
 //@ ensures[C10.only]   err == nil ==> msg.From == old(st.owner.val)
 //@ ensures[C19.remove] err == nil ==> old(st.messengers.has[msg.DomainId]) && !st.messengers.has[msg.DomainId]
 //@ ensures[C19.missing] !old(st.messengers.has[msg.DomainId]) ==> err != nil
@@ -353,6 +364,7 @@ package keeper
 //@ func (msgServer) EnableAttester(goCtx, msg) (resp, err)
 //@ requires inited()
 //@ ensures[C10.auth]   msg.From != old(st.attesterManager.val) ==> err != nil && unchanged(st) && events == [] && calls == []
+//@ ensures[C10.rejected C13.rejected C15.rejected] err != nil && !emitErr(0) ==> unchanged(st)
 //@ ensures[C10.only]   err == nil ==> msg.From == old(st.attesterManager.val)
 //@ ensures[C13.enable C19.add] err == nil ==> len(fromHex(msg.Attester)) > 0 && !old(st.attesters.has[msg.Attester]) && st.attesters.has[msg.Attester] && st.attesters.val[msg.Attester] == msg.Attester && st.nAtt == old(st.nAtt) + 1
 //@ ensures[C13.dup C19.dup] old(st.attesters.has[msg.Attester]) ==> err != nil
@@ -365,6 +377,7 @@ package keeper
 //@ func (msgServer) DisableAttester(goCtx, msg) (resp, err)
 //@ requires inited()
 //@ ensures[C10.auth]   msg.From != old(st.attesterManager.val) ==> err != nil && unchanged(st) && events == [] && calls == []
+//@ ensures[C10.rejected C13.rejected C15.rejected] err != nil && !emitErr(0) ==> unchanged(st)
 //@ ensures[C10.only]   err == nil ==> msg.From == old(st.attesterManager.val)
 //@ ensures[C13.disable C19.remove] err == nil ==> old(st.attesters.has[msg.Attester]) && old(st.nAtt) != 1 && old(st.threshold.set) && uint32(old(st.nAtt)) > old(st.threshold.val) && !st.attesters.has[msg.Attester] && st.nAtt == old(st.nAtt) - 1
 //@ ensures[C13.missing C19.missing] !old(st.attesters.has[msg.Attester]) ==> err != nil
@@ -376,6 +389,7 @@ package keeper
 //@ func (msgServer) UpdateSignatureThreshold(goCtx, msg) (resp, err)
 //@ requires inited()
 //@ ensures[C10.auth]   msg.From != old(st.attesterManager.val) ==> err != nil && unchanged(st) && events == [] && calls == []
+//@ ensures[C10.rejected C13.rejected C15.rejected] err != nil && !emitErr(0) ==> unchanged(st)
 //@ ensures[C10.only]   err == nil ==> msg.From == old(st.attesterManager.val)
 //@ ensures[C13.update] err == nil ==> msg.Amount != 0 && msg.Amount != (old(st.threshold.set) ? old(st.threshold.val) : 0) && msg.Amount <= uint32(old(st.nAtt)) && st.threshold.set && st.threshold.val == msg.Amount
 //@ ensures[C10.total C13.total C12.admin] msg.From == old(st.attesterManager.val) && msg.Amount != 0 && msg.Amount != (old(st.threshold.set) ? old(st.threshold.val) : 0) && msg.Amount <= uint32(old(st.nAtt)) && !emitErr(0) ==> err == nil
@@ -388,6 +402,7 @@ package keeper
 //@ func (msgServer) PauseBurningAndMinting(goCtx, msg) (resp, err)
 //@ requires inited()
 //@ ensures[C10.auth]   msg.From != old(st.pauser.val) ==> err != nil && unchanged(st) && events == [] && calls == []
+//@ ensures[C10.rejected C13.rejected C15.rejected] err != nil && !emitErr(0) ==> unchanged(st)
 //@ ensures[C10.only]   err == nil ==> msg.From == old(st.pauser.val)
 //@ ensures[C12.flag]   err == nil ==> st.bmPaused.set && st.bmPaused.val
 //@ ensures[C10.total C12.admin] msg.From == old(st.pauser.val) && !emitErr(0) ==> err == nil
@@ -398,6 +413,7 @@ package keeper
 //@ func (msgServer) UnpauseBurningAndMinting(goCtx, msg) (resp, err)
 //@ requires inited()
 //@ ensures[C10.auth]   msg.From != old(st.pauser.val) ==> err != nil && unchanged(st) && events == [] && calls == []
+//@ ensures[C10.rejected C13.rejected C15.rejected] err != nil && !emitErr(0) ==> unchanged(st)
 //@ ensures[C10.only]   err == nil ==> msg.From == old(st.pauser.val)
 //@ ensures[C12.flag]   err == nil ==> st.bmPaused.set && !st.bmPaused.val
 //@ ensures[C10.total C12.admin] msg.From == old(st.pauser.val) && !emitErr(0) ==> err == nil
@@ -408,6 +424,7 @@ package keeper
 //@ func (msgServer) PauseSendingAndReceivingMessages(goCtx, msg) (resp, err)
 //@ requires inited()
 //@ ensures[C10.auth]   msg.From != old(st.pauser.val) ==> err != nil && unchanged(st) && events == [] && calls == []
+//@ ensures[C10.rejected C13.rejected C15.rejected] err != nil && !emitErr(0) ==> unchanged(st)
 //@ ensures[C10.only]   err == nil ==> msg.From == old(st.pauser.val)
 //@ ensures[C12.flag]   err == nil ==> st.srPaused.set && st.srPaused.val
 //@ ensures[C10.total C12.admin] msg.From == old(st.pauser.val) && !emitErr(0) ==> err == nil
@@ -418,6 +435,7 @@ package keeper
 //@ func (msgServer) UnpauseSendingAndReceivingMessages(goCtx, msg) (resp, err)
 //@ requires inited()
 //@ ensures[C10.auth]   msg.From != old(st.pauser.val) ==> err != nil && unchanged(st) && events == [] && calls == []
+//@ ensures[C10.rejected C13.rejected C15.rejected] err != nil && !emitErr(0) ==> unchanged(st)
 //@ ensures[C10.only]   err == nil ==> msg.From == old(st.pauser.val)
 //@ ensures[C12.flag]   err == nil ==> st.srPaused.set && !st.srPaused.val
 //@ ensures[C10.total C12.admin] msg.From == old(st.pauser.val) && !emitErr(0) ==> err == nil
@@ -432,6 +450,7 @@ package keeper
 //@ func (msgServer) LinkTokenPair(goCtx, msg) (resp, err)
 //@ requires inited()
 //@ ensures[C10.auth]   msg.From != old(st.tokenController.val) ==> err != nil && unchanged(st) && events == [] && calls == []
+//@ ensures[C10.rejected C13.rejected C15.rejected] err != nil && !emitErr(0) ==> unchanged(st)
 //@ ensures[C10.only]   err == nil ==> msg.From == old(st.tokenController.val)
 //@ ensures[C19.add]    err == nil ==> len(msg.RemoteToken) == 32 && !old(st.tokenPairs.has[msg.RemoteDomain][msg.RemoteToken]) && st.tokenPairs.has[msg.RemoteDomain][msg.RemoteToken] && st.tokenPairs.local[msg.RemoteDomain][msg.RemoteToken] == lower(msg.LocalToken) && st.tokenPairs.rdom[msg.RemoteDomain][msg.RemoteToken] == msg.RemoteDomain && st.tokenPairs.rtok[msg.RemoteDomain][msg.RemoteToken] == msg.RemoteToken
 //@ ensures[C19.dup]    old(st.tokenPairs.has[msg.RemoteDomain][msg.RemoteToken]) ==> err != nil
@@ -444,6 +463,7 @@ package keeper
 //@ requires inited()
 //@ requires[rep] st.tokenPairs.has[msg.RemoteDomain][msg.RemoteToken] ==> st.tokenPairs.rdom[msg.RemoteDomain][msg.RemoteToken] == msg.RemoteDomain && st.tokenPairs.rtok[msg.RemoteDomain][msg.RemoteToken] == msg.RemoteToken
 //@ ensures[C10.auth]   msg.From != old(st.tokenController.val) ==> err != nil && unchanged(st) && events == [] && calls == []
+//@ ensures[C10.rejected C13.rejected C15.rejected] err != nil && !emitErr(0) ==> unchanged(st)
 //@ ensures[C10.only]   err == nil ==> msg.From == old(st.tokenController.val)
 //@ ensures[C19.remove] err == nil ==> len(msg.RemoteToken) == 32 && old(st.tokenPairs.has[msg.RemoteDomain][msg.RemoteToken]) && !st.tokenPairs.has[msg.RemoteDomain][msg.RemoteToken]
 //@ ensures[C19.missing] !old(st.tokenPairs.has[msg.RemoteDomain][msg.RemoteToken]) ==> err != nil
@@ -455,6 +475,7 @@ package keeper
 //@ func (msgServer) SetMaxBurnAmountPerMessage(goCtx, msg) (resp, err)
 //@ requires inited()
 //@ ensures[C10.auth]   msg.From != old(st.tokenController.val) ==> err != nil && unchanged(st) && events == [] && calls == []
+//@ ensures[C10.rejected C13.rejected C15.rejected] err != nil && !emitErr(0) ==> unchanged(st)
 //@ ensures[C10.only]   err == nil ==> msg.From == old(st.tokenController.val)
 //@ ensures[C19.limit C08.limitkey] err == nil ==> st.burnLimits.has[lower(msg.LocalToken)] && st.burnLimits.denom[lower(msg.LocalToken)] == lower(msg.LocalToken) && !st.burnLimits.nil[lower(msg.LocalToken)] && st.burnLimits.amt[lower(msg.LocalToken)] == (msg.Amount.isnil ? 0 : msg.Amount.v)
 //@ ensures[C10.total C12.admin] msg.From == old(st.tokenController.val) && !emitErr(0) ==> err == nil
@@ -614,7 +635,7 @@ package keeper
 //@ ensures[C12.bm]    err == nil && toModule(msg.Message) ==> !bmPausedIn(old(st))
 //@ ensures[C12.nomint] err == nil && bmPausedIn(old(st)) ==> calls == [] && len(events) == 1
 //@ ensures[C02.fresh] err == nil ==> len(msg.Message) >= 116 && !old(st.usedNonces.has[u32be(msg.Message, 4)][u64be(msg.Message, 12)])
-//@ ensures[C02.mark]  err == nil ==> st.usedNonces.has[u32be(msg.Message, 4)][u64be(msg.Message, 12)]
+//@ ensures[C02.mark C03.consumed]  err == nil ==> st.usedNonces.has[u32be(msg.Message, 4)][u64be(msg.Message, 12)]
 //@ ensures[C14.mint]  depFails(0) && toModule(msg.Message) ==> err != nil
 //@ calls[C04.mint C14.mint C05.others] (len(msg.Message) >= 116 && toModule(msg.Message) ? [Mint{From: bech32(moduleAddr), Address: bech32(msg.Message[164:184]), Denom: mintDenom(old(st), msg.Message), Amount: u256be(msg.Message, 184)}] : [])
 //@ emits[C04.events C14.events C05.others] (len(msg.Message) >= 116 && toModule(msg.Message) ? [MintAndWithdraw{MintRecipient: msg.Message[152:184], Amount: u256be(msg.Message, 184), MintToken: mintDenom(old(st), msg.Message)}, MessageReceived{Caller: msg.From, SourceDomain: u32be(msg.Message, 4), Nonce: u64be(msg.Message, 12), Sender: msg.Message[20:52], MessageBody: msg.Message[116:]}] : [MessageReceived{Caller: msg.From, SourceDomain: u32be(msg.Message, 4), Nonce: u64be(msg.Message, 12), Sender: msg.Message[20:52], MessageBody: msg.Message[116:]}])
